@@ -48,10 +48,10 @@ Qed.
 
 (* a path is taken away from the mux only by a rule that an open finding names *)
 Lemma prefix_bypass_only_exempt : forall g path p, dispatch g prefixes path = Some p ->
-  exempt_prefix open_findings p = true.
+  prefix_ok open_findings p = true.
 Proof.
   intros g path p H. apply dispatch_some_in in H. destruct H as [Hin _].
-  destruct (exempt_prefix open_findings p) eqn:E; [reflexivity|].
+  destruct (prefix_ok open_findings p) eqn:E; [reflexivity|].
   assert (In p (unexempt_prefixes open_findings prefixes)) as Hf.
   { unfold unexempt_prefixes. apply filter_In. split; [exact Hin|]. rewrite E. reflexivity. }
   rewrite no_prefix_bypass_check in Hf. destruct Hf.
@@ -62,8 +62,11 @@ Lemma exempt_prefix_known : forall open p, exempt_prefix open p = true ->
 Proof. intros open p H. unfold exempt_prefix in H. apply andb_true_iff in H. exact H. Qed.
 
 Lemma prefix_bypass_only_open_finding : forall g path p, dispatch g prefixes path = Some p ->
-  mem "C19-debug-public" open_findings = true /\ known_prefix p = true.
-Proof. intros g path p H. apply exempt_prefix_known. exact (prefix_bypass_only_exempt _ _ _ H). Qed.
+  prefix_admin p = true \/ (mem "C19-debug-public" open_findings = true /\ known_prefix p = true).
+Proof.
+  intros g path p H. pose proof (prefix_bypass_only_exempt _ _ _ H) as X. unfold prefix_ok in X.
+  apply orb_true_iff in X. destruct X as [X|X]; [left; exact X|right; apply exempt_prefix_known; exact X].
+Qed.
 
 Lemma repaired_dispatch_is_mux : forall g path, dispatch g (unexempt_prefixes open_findings prefixes) path = None.
 Proof. intros. rewrite no_prefix_bypass_check. reflexivity. Qed.
@@ -1013,4 +1016,21 @@ Proof.
       destruct (forallb _ s) eqn:F; [|reflexivity]. rewrite forallb_forall in F. specialize (F _ Hin). discriminate.
     - unfold authorize_stmt_plain. destruct (forallb _ s) eqn:F; [|reflexivity]. rewrite forallb_forall in F. specialize (F _ Hin). discriminate. }
   unfold stmt_result. rewrite EF, EI, EA. rewrite andb_false_r. reflexivity.
+Qed.
+
+(* a prefix rule that runs behind authenticate and asks for the administrator (repair of C19-debug-public): requests
+   without valid credentials get 401 and valid non-administrators 403, nothing runs *)
+Lemma authenticated_prefix_refuses_lemma : forall sh cfg g ps us path r k rq p,
+  dispatch g ps path = Some p -> prefix_admin p = true ->
+  auth_enabled cfg = true -> admin_exists us = true ->
+  ((forall u, ~ valid_creds cfg us (rq_creds rq) u) -> serve_path sh cfg g ps us path r k rq = (401, [])) /\
+  (forall u, valid_creds cfg us (rq_creds rq) u -> u_admin u = false -> serve_path sh cfg g ps us path r k rq = (403, [])).
+Proof.
+  intros sh cfg g ps us path r k rq p Hd Hp Ha Hadm. unfold serve_path. rewrite Hd, Hp. split.
+  - intro Hno. pose (r0 := mk_route "p" "GET" path "" SigUser "").
+    pose proof (invalid_creds_rejected_lemma (mk_shape [mk_wrap SigUser WrapAuth auth_flag] 0 true 0 true 1 0) cfg us r0 KAdminOnly rq Ha Hadm
+                  eq_refl eq_refl Hno) as X.
+    unfold serve in X. cbn [always_rejects r0 r_sig hsig_eqb] in X.
+    change (authenticated (mk_shape [mk_wrap SigUser WrapAuth auth_flag] 0 true 0 true 1 0) r0) with true in X. exact X.
+  - intros u Hv Hna. rewrite (authenticate_pass_complete _ _ _ _ Ha Hadm Hv). cbn [inner]. rewrite Ha, Hna. reflexivity.
 Qed.
